@@ -45,6 +45,14 @@ mut("c20-uncontrollable-only-without-sync", ["C20"], "src/xmlwriter.cpp", "    i
 mut("c01-label-without-kind", ["C01"], "src/xmlreader.cpp", '        char* kind = getAttribute("kind");\n        if (kind == nullptr)\n            throw TypeException("A label must have a \\"kind\\" attribute");\n        read();\n        /* Read the text and push it to the parser. */\n        if (getNodeType() == XML_READER_TYPE_TEXT) {\n            const xmlChar* text = xmlTextReaderConstValue(reader.get());\n            static const auto map', '        char* kind = getAttribute("kind");\n        read();\n        /* Read the text and push it to the parser. */\n        if (getNodeType() == XML_READER_TYPE_TEXT) {\n            const xmlChar* text = xmlTextReaderConstValue(reader.get());\n            static const auto map')
 mut("c01-eintr-fatal-exit", ["C01"], "src/lexer.l", "#define YY_FATAL_ERROR(msg) { throw TypeException(msg); }", "")
 
+# ---------------- second batch (from the plan in DESIGN.md 5.1) ----------------
+mut("c01-proc-guard-null-edge", ["C01"], "src/DocumentBuilder.cpp", "void DocumentBuilder::proc_guard()\n{\n    if (!currentEdge) {\n        handle_error(TypeException(\"Must be declared inside of an edge\"));\n        return;\n    }\n", "void DocumentBuilder::proc_guard()\n{\n")
+mut("c16-paren-error-pushes-nothing", ["C16", "C01"], "src/parser.y", "        | '(' error ')' {\n          CALL(@1, @3, expr_false());\n        }\n        | Expression T_INCREMENT", "        | '(' error ')' {\n        }\n        | Expression T_INCREMENT")
+mut("c20-labels-sync-text-in-guard-when-both", ["C20"], "src/xmlwriter.cpp", "        label(\"guard\", edge.guard.str(), x, y - 16);", "        label(\"guard\", !edge.sync.empty() && !edge.prob.empty() ? edge.sync.str() : edge.guard.str(), x, y - 16);")
+mut("c20-last-edge-skipped-when-many", ["C20"], "src/xmlwriter.cpp", "    for (auto& e : templ.edges)\n        transition(e);", "    for (auto& e : templ.edges)\n        if (templ.edges.size() < 9 || &e != &templ.edges.back())\n            transition(e);")
+mut("c05-xta-probability-error-swallowed", ["C05", "C06"], "src/parser.y", "          CALL(@2, @2, proc_prob());\n        }", "          if (strlen(rootTransId) < 3) CALL(@2, @2, proc_prob());\n        }")
+mut("c04-location-keeps-previous-invariant-flag", ["C04", "C08", "C01"], "src/xmlreader.cpp", "bool XMLReader::location()\n{\n    bool l_invariant = false;", "bool XMLReader::location()\n{\n    static bool l_invariant = false;")
+
 subprocess.check_call(["git", "-C", wt, "checkout", "-q", "--", "."])
 os.makedirs(out, exist_ok=True)
 index = []
